@@ -9,7 +9,7 @@ Python `str` and a split of its UTF-8 bytes on 0x2F agree level by level
 
 Child dictionaries are association lists in insertion order (Python `dict`).
 -/
-import Paho.Gen.Consts
+import Paho.Gen.Matcher
 
 namespace Paho
 
